@@ -27,7 +27,9 @@ As4         == {"AS4_PATH", "AS4_AGGREGATOR"}
 Unknown     == {"UNKNOWN_WELLKNOWN", "UNKNOWN_OPT_TRANS", "UNKNOWN_OPT_NONTRANS"}
 AttrTypes   == Mandatory \cup Discret \cup OptTrans \cup OptNonTrans \cup As4 \cup Unknown
 
-Corruptions == {"none", "len", "len_plus1", "flags_opt", "flags_trans", "value", "dup", "omit", "attr_overrun", "hdr_trunc", "block_overrun"}
+Corruptions == {"none", "len", "len_plus1", "len16", "len32", "flags_opt", "flags_trans", "value", "dup", "omit", "attr_overrun", "hdr_trunc", "block_overrun"}
+\* len16 / len32: a legacy NEXT_HOP whose value is 16 or 32 octets long (what an IPv6 next hop looks like inside MP_REACH);
+\*                RFC 4271: the NEXT_HOP attribute is four octets, anything else is an attribute length error
 \* attr_overrun: the (last) attribute's declared length runs past the attribute block
 \* hdr_trunc:    the attribute block ends inside the (last) attribute's header, after flags and type
 \* block_overrun: the Total Path Attribute Length runs past the end of the message
@@ -49,6 +51,7 @@ CompMeaningful(x, at, co) ==
   /\ (co = "value" => at \in HasValueCheck)
   /\ (co = "len"   => at \in FixedOrGrained \cup {"AS_PATH", "AS4_PATH"} \cup MpAttrs)
   /\ (co = "len_plus1" => at \in FixedOrGrained \cup {"AS_PATH", "AS4_PATH"})     \* one stray octet after a well-formed value
+  /\ (co \in {"len16", "len32"} => at = "NEXT_HOP")
   /\ (co \in {"flags_opt", "flags_trans"} => at \notin Unknown)
   /\ (co = "omit"  => at \in Mandatory)
   /\ (at = "NEXT_HOP" => x.base \in {"v4", "v4_wd", "mix"})    \* MP_REACH carries its own next hop
@@ -64,7 +67,7 @@ Meaningful(x) ==
   /\ IF x.attr2 = "none" THEN x.corrupt2 = "none"
      ELSE /\ Pairs
           /\ x.attr2 # x.attr /\ x.attr \notin MpAttrs
-          /\ x.corrupt2 \in {"len", "len_plus1", "flags_opt", "flags_trans", "value", "dup"}
+          /\ x.corrupt2 \in {"len", "len_plus1", "len16", "len32", "flags_opt", "flags_trans", "value", "dup"}
           /\ x.corrupt \notin {"none", "block_overrun"}
           /\ CompMeaningful(x, x.attr2, x.corrupt2)
 
@@ -82,7 +85,7 @@ A(x, at, co) ==
          ELSE IF at \in As4 THEN {"discard", "ok"}   \* RFC 6793: ignored between NEW speakers, merged into
                                                      \* AS_PATH / AGGREGATOR (and then gone) on a 2-octet session
          ELSE {"ok"}
-    [] at \notin MpAttrs /\ co \in {"len", "len_plus1", "flags_opt", "flags_trans", "value"} ->
+    [] at \notin MpAttrs /\ co \in {"len", "len_plus1", "len16", "len32", "flags_opt", "flags_trans", "value"} ->
          IF at \in OptNonTrans \cup As4 THEN {"withdraw", "discard"} ELSE {"withdraw"}
     [] at \notin MpAttrs /\ co = "dup" -> {"ok", "withdraw"} \cup (IF at \in As4 THEN {"discard"} ELSE {})
                                                          \* RFC 7606 3.g: all but the first are discarded
